@@ -51,7 +51,8 @@ CHECKS = {
         "symbolic length, discharged as generated base/step/exit obligations on the mechanically extracted loop body and Directive class family (ghost reference k / target t; "
         "ghost adjacent pair for the offset chain); the exit lemma of a changeless pass gives 'address after the instruction + operand == label address' / 'operand == word address "
         "or rejected'; per-directive Hoare triple for emitProgramBin's loop body (bytes decode by the ISA prefix rule to the resolved operand, running offset == layout offset); "
-        "header-word lemma. Termination is a BOUNDED stand-in (progress measure on all programs of <=4/6 directives) and is not counted as proved.",
+        "header-word lemma. Termination: lengths never shrink and are <= 8, and a pass that grows no reference moves no label (inductive invariant, unbounded in program length); that the sum of (8-length) then bounds the "
+        "number of passes by 7n+2 is paper glue. A BOUNDED cross-check of the measure on programs of <=4/6 directives is kept and not counted as proved.",
    note="Trusted: CBMC+MiniSat, extractor rules (dirx/asmx), WF() of directive objects (constructors unverified; instantiated at visited/dereferenced elements), std::map lookup = "
         "declaring directive, outer loop/constructor/emitBin matched textually, composition of the lemmas on paper. Native sweep of the real assembler is the counterexample search + replay.",
    technique="CBMC code contracts + generated base/step/exit invariant obligations on mechanically extracted C; native replay on real hexasm"),
@@ -65,10 +66,11 @@ CHECKS = {
    text="Mechanisms proved: (1) with tracing on and the real trace(), the extracted run() loop body prints (instruction count before the step, byte address fetched, symbol and pc-offset, "
         "mnemonic of the fetched opcode, byte&0xF) and then executes exactly that instruction (== isa_step), for all states; (2) lookupSymbol under a function + loop contract over a table of "
         "symbolic length (no out-of-bounds read; returns an entry with offset<=pc<next offset, none below the first); with non-decreasing offsets it is the last entry at or below pc; "
-        "(3) emitProgramBin records one symbol per FUNC/PROC with the address of the next emitted byte. The corollary 'procedure entries in a trace equal the source call sequence' "
+        "(3) emitProgramBin records one symbol per FUNC/PROC with the address of the next emitted byte; (4) the loop bodies of emitDebugInfo (writer) and of load()'s symbol reader are under "
+        "inductive invariants over a table of symbolic length: the table hexsim loads is the table hexasm recorded, entry by entry. The corollary 'procedure entries in a trace equal the source call sequence' "
         "needs compiler correctness (C01) and is assumed, not claimed.",
-   note="Trusted: CBMC+MiniSat, extractor rules, EV_FMT/EV_ARG abstraction of boost::format, unique symbol names for debugInfoMap, instrEnumToStr table. The symbol-table round trip "
-        "through the binary file (emitDebugInfo / load) is exercised only by the native stage (real hexasm -> real hexsim -t, every trace line checked against an ISA run): sampled, not proved.",
+   note="Trusted: CBMC+MiniSat, extractor rules, EV_FMT/EV_ARG abstraction of boost::format, unique symbol names for debugInfoMap, instrEnumToStr table. In the round trip the names are ids (string bytes dropped) and the "
+        "enclosing function structure is compared textually. Native stage: real hexasm -> real hexsim -t, every trace line checked against an ISA run.",
    technique="CBMC function/loop contracts + contract harness on mechanically extracted C; native trace comparison on the real tools"),
  "C07": dict(cat="proof", design="DESIGN.md §4 C07",
    text="The folding switches of xcmp's ConstProp are extracted as fold_bin/fold_un; the run-time side is the REAL xcmp's output (compiler rebuilt from the working tree each run) executed "
